@@ -142,7 +142,11 @@ def pc_cases(rng, tier):
     quick = tier == "quick"
     sd = lambda: gen_enc.seed(rng)
     cases = []
-    for a, b, l in [("Alice", "Bob", 32), ("a", "b", 1), ("Alice", "Alicf", 16), ("x" * 40, "Bob", 100)]:
+    # identity orderings: different first byte, equal length differing in the last byte, one a proper prefix of the
+    # other (in both argument orders), different lengths differing inside the common part, long
+    for a, b, l in [("Alice", "Bob", 32), ("a", "b", 1), ("Alice", "Alicf", 16), ("x" * 40, "Bob", 100),
+                    ("alice", "alice2", 32), ("alice2", "alice", 32), ("a", "ab", 16), ("node-17", "node", 20),
+                    ("Bob", "Alice", 32), ("abc", "abd-long", 16), ("abd-long", "abc", 16)]:
         cases.append("sokaka %s %s %s %d" % (sd(), a, b, l))
     for n in (range(0, 35) if not quick else [0, 1, 2, 15, 16, 31, 32, 33, 64]):
         cases.append("ibe %s %s %s 256" % (sd(), rng.choice(["Alice", "Bob", "id"]), gen_enc.hx(gen_enc.plaintext(rng, n, gen_enc.CLASSES[n % 5]))))
